@@ -2188,16 +2188,16 @@ def workload_checks(ctx, pe, aes, world, docs, base, tmproot, special, aes0=Fals
         byfam.setdefault(Path(d).parent.name + Path(d).suffix, []).append(d)
     pool = [v[0] for v in byfam.values()]
     rng.shuffle(pool)
-    core = [d for d in fast if Path(d).suffix == ".pdf"][:3] + [d for d in fast if d.endswith(".7z")] + \
+    core = [d for d in fast if Path(d).suffix == ".pdf"][: ctx.n(2, 3)] + [d for d in fast if d.endswith(".7z")] + \
            [d for d in fast if base[d].startswith("exc:")][:2] + [special[k] for k in ("garbage_pdf", "truncated_docx") if k in special]
-    core = list(dict.fromkeys(core + pool[: ctx.n(2, 8)]))
+    core = list(dict.fromkeys(core + pool[: ctx.n(1, 8)]))
     nseq = 0
     for seq in itertools.permutations(core, 2):
         check_seq(list(seq), "sequence:pairs")
         nseq += 1
     trip = list(itertools.permutations(core[:5], 3))
     rng.shuffle(trip)
-    for seq in trip[: ctx.n(20, 60)]:
+    for seq in trip[: ctx.n(12, 60)]:
         check_seq(list(seq), "sequence:triples")
     residue("ordered sequences", core)
     # ---- third-party settings configured by the application after import must survive extractions
@@ -2247,7 +2247,7 @@ def workload_checks(ctx, pe, aes, world, docs, base, tmproot, special, aes0=Fals
 
     # ---- randomised pre-emptive schedules over mixed-format workloads
     sw = sys.getswitchinterval()
-    nthreads = 8
+    nthreads = ctx.n(6, 8)
     rounds = ctx.n(2, 5)
     mism = []
     lock = threading.Lock()
